@@ -201,6 +201,37 @@ theorem stepOs_fold_get (objs : Objects) (id : ObjId) : ∀ (L : List (Nat × XE
             exact absurd (Prod.ext hb.1 hb.2) hid
         simp only [this, Bool.false_or, hid, if_false]
 
+theorem pendingIds_insert_plain (os : LObjects) (id : ObjId) (o : Obj) (h : pendingIds os = []) :
+    pendingIds (os.insert id (.plain o)) = [] := by
+  induction os with
+  | nil => simp [LObjects.insert, pendingIds]
+  | cons p rest ih =>
+    obtain ⟨i, lo⟩ := p
+    cases lo with
+    | pending d st => simp [pendingIds] at h
+    | plain o' =>
+      have hr : pendingIds rest = [] := by simpa [pendingIds] using h
+      by_cases hi : i = id
+      · simp only [LObjects.insert, hi, if_true]
+        simpa [pendingIds] using hr
+      · simp only [LObjects.insert, hi, if_false]
+        have := ih hr
+        simpa [pendingIds] using this
+
+theorem stepOs_fold_pending (objs : Objects) : ∀ (L : List (Nat × XEntry)) (os : LObjects),
+    pendingIds os = [] → pendingIds (L.foldl (stepOs objs) os) = [] := by
+  intro L
+  induction L with
+  | nil => intro os h; exact h
+  | cons e rest ih =>
+    intro os h
+    simp only [List.foldl_cons]
+    apply ih
+    obtain ⟨k, v⟩ := e
+    cases v with
+    | compressed a b => exact h
+    | normal off g => exact pendingIds_insert_plain os _ _ h
+
 theorem keys_map_of_fst (os : LObjects) (G : ObjId × LObj → ObjId × Obj) (hG : ∀ p, (G p).1 = p.1) :
     (os.map G).map (·.1) = os.map (·.1) := by
   rw [List.map_map]
@@ -224,16 +255,17 @@ theorem stepOs_fold_nodup (objs : Objects) : ∀ (L : List (Nat × XEntry)) (os 
 
 /-- **the object pass on a table all of whose entries read back**: it succeeds, keeps the
 cross-reference data, and holds under each id named by an in-use entry the object read there -/
-theorem objectPass_good (arr : List Block → List Block) (harr : arr [] = []) (buf version mark : Bytes)
+theorem objectPass_good (arr : List Block → List Block) (arr2 : List ObjId → List ObjId) (harr : arr [] = []) (harr2 : arr2 [] = []) (buf version mark : Bytes)
     (x : XTable) (tr : Dict) (xs : Nat) (objs : Objects)
     (hgood : ∀ e ∈ x.sorted, EntryGood buf x x.sorted.length objs e) :
-    ∃ L : Loaded, objectPass arr buf version mark x tr xs = .ok L ∧ L.version = version ∧ L.binaryMark = mark ∧
+    ∃ L : Loaded, objectPass arr arr2 buf version mark x tr xs = .ok L ∧ L.version = version ∧ L.binaryMark = mark ∧
       L.trailer = tr ∧ L.xrefStart = xs ∧ L.maxId = x.maxId ∧
       (∀ id, L.objects.get id = if x.sorted.any (entryIs id) then some ((objs.get id).getD .null) else none) ∧
       SortedO L.objects := by
   have hfold := loadStep_fold buf x x.sorted.length objs x.sorted [] hgood
+  have hpend := stepOs_fold_pending objs x.sorted [] rfl
   unfold objectPass
-  simp only [hfold, harr, mergeBlocksX_nil]
+  simp only [hfold, harr, mergeBlocksX_nil, hpend, harr2, List.foldl_nil]
   refine ⟨_, rfl, rfl, rfl, rfl, rfl, by simp, ?_, ?_⟩
   rotate_left
   · simp only
@@ -257,8 +289,6 @@ theorem objectPass_good (arr : List Block → List Block) (harr : arr [] = []) (
   rw [stepOs_fold_get]
   by_cases hany : x.sorted.any (entryIs id) = true
   · simp only [hany, if_true, Option.map_some]
-    generalize (objs.get id).getD .null = X
-    cases X <;> simp
   · simp only [hany, Bool.false_eq_true, if_false, LObjects.get, Option.map_none]
 
 /-! ### `load ∘ save` -/
@@ -294,7 +324,7 @@ well-formed document `d` saved plainly with a classic cross-reference table (fil
 on the saved bytes succeeds and returns the same version, binary mark and trailer (as `save`
 left it, `Size` included), `xref_start` = the offset the writer stored, `max_id ≤` the old one,
 and for EVERY object id exactly the object the document held (and nothing for other ids). -/
-theorem load_of_save_table_withN (arr : List Block → List Block) (harr : arr [] = []) (nf : Obj → Obj)
+theorem load_of_save_table_withN (arr : List Block → List Block) (arr2 : List ObjId → List ObjId) (harr : arr [] = []) (harr2 : arr2 [] = []) (nf : Obj → Obj)
     (hnf : ∀ o, NotObjStm o → NotObjStm (nf o)) (d : SDoc) (out : Bytes) (d' : SDoc) (tr' : Dict)
     (hk : d.xrefKind = .table) (h : saveFrom [] d = some (out, d')) (hlen : out.length < 4294967296)
     (hmax : d.maxId + 1 ≤ 4294967295) (hwf : DocWF d)
@@ -304,11 +334,11 @@ theorem load_of_save_table_withN (arr : List Block → List Block) (harr : arr [
       pIndirect len none base (writeIndirect p.1.1 p.1.2 p.2 ++ rest) = some ((p.1.1, p.1.2), .plain (nf p.2)))
     (hv1 : ∀ b ∈ d.version, notEol b = true) (hv2 : validUtf8 d.version = true)
     (hprev : tr'.get PREV = none) (henc : tr'.has ENCRYPT = false) :
-    ∃ L : Loaded, loadDocWith arr out = .ok L ∧ L.version = d.version ∧ L.binaryMark = d.binaryMark ∧
+    ∃ L : Loaded, loadDocWith arr arr2 out = .ok L ∧ L.version = d.version ∧ L.binaryMark = d.binaryMark ∧
       L.trailer = tr' ∧ L.xrefStart = (bodyOf [] d).length ∧ L.maxId ≤ d.maxId ∧
       (∀ id, L.objects.get id = (d.objects.get id).map nf) ∧ SortedO L.objects := by
   obtain ⟨table, hget, _, hnodup, hload⟩ :=
-    load_front_of_save_tableN arr d out d' tr' hk h hlen hmax hwf.gens hD hsz hv1 hv2 hprev henc
+    load_front_of_save_tableN arr arr2 d out d' tr' hk h hlen hmax hwf.gens hD hsz hv1 hv2 hprev henc
   have hb := body_le_out [] d out d' h
   have hrec0 : Recorded (bodyOf [] d) (xmapOf [] d) d.objects :=
     writeObjects_recorded d.objects d.objects (hdrOf [] d) []
@@ -344,7 +374,7 @@ theorem load_of_save_table_withN (arr : List Block → List Block) (harr : arr [
     refine ⟨off, g, nf o, hv, hoff, by rw [Objects_get_mapval, hog]; rfl, hnf o hkept, ?_⟩
     rw [← hrest]
     exact hobj ((k, g), o) (Objects_mem_of_get d.objects (k, g) o hog) _ _ _
-  obtain ⟨L, hL, l1, l2, l3, l4, l5, l6, l7⟩ := objectPass_good arr harr out d.version d.binaryMark table tr'
+  obtain ⟨L, hL, l1, l2, l3, l4, l5, l6, l7⟩ := objectPass_good arr arr2 harr harr2 out d.version d.binaryMark table tr'
     (bodyOf [] d).length (d.objects.map fun p => (p.1, nf p.2)) hgood
   refine ⟨L, by rw [hload]; exact hL, l1, l2, l3, l4, ?_, ?_, l7⟩
   · rw [l5]
@@ -401,20 +431,20 @@ well-formed document `d` saved plainly with a classic cross-reference table (fil
 on the saved bytes succeeds and returns the same version, binary mark and trailer (as `save`
 left it, `Size` included), `xref_start` = the offset the writer stored, `max_id ≤` the old one,
 and for EVERY object id exactly the object the document held (and nothing for other ids). -/
-theorem load_of_save_table_with (arr : List Block → List Block) (harr : arr [] = []) (d : SDoc) (out : Bytes) (d' : SDoc)
+theorem load_of_save_table_with (arr : List Block → List Block) (arr2 : List ObjId → List ObjId) (harr : arr [] = []) (harr2 : arr2 [] = []) (d : SDoc) (out : Bytes) (d' : SDoc)
     (hk : d.xrefKind = .table) (h : saveFrom [] d = some (out, d')) (hlen : out.length < 4294967296)
     (hmax : d.maxId + 1 ≤ 4294967295) (hwf : DocWF d)
     (hD : DictReadsBack d'.trailer (STARTXREF_KW ++ natDigits (bodyOf [] d).length ++ EOF_KW))
     (hobj : ∀ p ∈ d.objects, IndirectReadsBack p.1.1 p.1.2 p.2)
     (hv1 : ∀ b ∈ d.version, notEol b = true) (hv2 : validUtf8 d.version = true)
     (hprev : d.trailer.get PREV = none) (henc : d.trailer.has ENCRYPT = false) :
-    ∃ L : Loaded, loadDocWith arr out = .ok L ∧ L.version = d.version ∧ L.binaryMark = d.binaryMark ∧
+    ∃ L : Loaded, loadDocWith arr arr2 out = .ok L ∧ L.version = d.version ∧ L.binaryMark = d.binaryMark ∧
       L.trailer = d'.trailer ∧ L.xrefStart = (bodyOf [] d).length ∧ L.maxId ≤ d.maxId ∧
       (∀ id, L.objects.get id = d.objects.get id) ∧ SortedO L.objects := by
   obtain ⟨_, htr⟩ := saveFrom_table_eq [] d out d' hk h
   have k1 : ¬ SIZE = PREV := by decide
   have k2 : ¬ SIZE = ENCRYPT := by decide
-  obtain ⟨L, h1, h2, h3, h4, h5, h6, h7, h8⟩ := load_of_save_table_withN arr harr id (fun o ho => ho) d out d' d'.trailer
+  obtain ⟨L, h1, h2, h3, h4, h5, h6, h7, h8⟩ := load_of_save_table_withN arr arr2 harr harr2 id (fun o ho => ho) d out d' d'.trailer
     hk h hlen hmax hwf hD (by rw [htr, Dict.get_set_same]; simp) (fun p hp => hobj p hp) hv1 hv2
     (by rw [htr, Dict_get_set]; simp only [k1, if_false]; exact hprev)
     (by rw [Dict_has_eq, htr, Dict_get_set]; simp only [k2, if_false]; rw [← Dict_has_eq]; exact henc)
@@ -437,6 +467,6 @@ theorem load_of_save_table (order : Option (List Nat)) (d : SDoc) (out : Bytes) 
     ∃ L : Loaded, loadDocOrd order out = .ok L ∧ L.version = d.version ∧ L.binaryMark = d.binaryMark ∧
       L.trailer = d'.trailer ∧ L.xrefStart = (bodyOf [] d).length ∧ L.maxId ≤ d.maxId ∧
       (∀ id, L.objects.get id = d.objects.get id) ∧ SortedO L.objects :=
-  load_of_save_table_with _ (loadDocOrd_arr_nil order) d out d' hk h hlen hmax hwf hD hobj hv1 hv2 hprev henc
+  load_of_save_table_with _ _ (loadDocOrd_arr_nil order) rfl d out d' hk h hlen hmax hwf hD hobj hv1 hv2 hprev henc
 
 end Lopdf.FileRT
